@@ -160,7 +160,7 @@ def check_property(a):
                 extra = {'basis': 'obligation was discharged on the baseline tree (baseline/%s.json) and is no longer discharged '
                                   'after the change of %s; solver: %s' % (prop, ', '.join(regressed[id(o)]), o.get('reason') or 'timeout'),
                          'changed_functions': regressed[id(o)]}
-            path, confirmed = make_replay(prop, o, [u for u in units if u.name == un][0], repo, extra)
+            path, confirmed = make_replay(prop, o, [u for u in units if u.name == un][0], repo, extra, by_unit.get(un))
             replay_paths.append(path)
             suffix = '' if confirmed else ' no-failing-input-found'
             lines.append('VIOLATION property=%s replay=%s obligation=%s unit=%s%s' % (prop, path, o['name'], un, suffix))
